@@ -182,6 +182,22 @@ func checkCmd(args []string) {
 			}
 			res.Obls = sel
 			eng.Discharge(res, scfg)
+			// second chance for undecided obligations of the ledger: the machine is busy while a
+			// whole function is discharged in parallel and the hardest queries are close to the
+			// limit; retry them a few at a time with twice the time before calling them failed
+			var again []*eng.Obligation
+			for _, o := range res.Obls {
+				if o.Kind != "cover" && o.Status != "unsat" && o.Status != "sat" && inLedger[o.Name] {
+					again = append(again, o)
+				}
+			}
+			if len(again) > 0 && len(again) <= 12 {
+				retry := &eng.FuncResult{Func: res.Func, Lines: res.Lines, Obls: again}
+				cfg2 := scfg
+				cfg2.TimeoutS *= 2
+				cfg2.Parallel = 1
+				eng.Discharge(retry, cfg2)
+			}
 			for _, o := range res.Obls {
 				seen[o.Name] = true
 				results = append(results, oblResult{o.Name, o.Status, o.Solver, o.Millis, o.Instance, shortPos(o.Pos.String())})
